@@ -60,7 +60,9 @@ def diff_snapshots(a, b):
 def probe(root, script, args=(), hashseed=0, timeout=120):
     """Run a probe script in a fresh interpreter whose only eolib is the install's; -> parsed JSON of its last line."""
     env = dict(os.environ, PYTHONHASHSEED=str(hashseed), PYTHONDONTWRITEBYTECODE="1", PYTHONPATH=os.path.join(root, "src"))
-    p = subprocess.run([PY, "-B", "-S", "-c", script, *args], cwd=root, env=env, capture_output=True, text=True, timeout=timeout)
+    # the fresh interpreters run at the optimisation level of the harness (the -OO pass of mc/cli.py reaches them too)
+    opt = ["-OO"] if sys.flags.optimize >= 2 else ["-O"] if sys.flags.optimize == 1 else []
+    p = subprocess.run([PY, "-B", "-S", *opt, "-c", script, *args], cwd=root, env=env, capture_output=True, text=True, timeout=timeout)
     lines = [l for l in p.stdout.splitlines() if l.startswith("{")]
     if not lines:
         return {"probe_failed": True, "exit": p.returncode, "stderr": p.stderr[-1500:], "stdout": p.stdout[-500:]}
